@@ -353,51 +353,63 @@ def finish (o : Out) : Json :=
   if o.1 < 0 then errReply o.1
   else .obj (o.2.filter (fun kv => !(kv.1 == "errorcode")) ++ [("errorcode", .int o.1)])
 
+/-- the generic gate: the command name, or the error code -/
+def gate (c : Codes) (kvs : List (String × Json)) : Except Int String :=
+  match Json.lookup kvs "command" with
+  | none => .error c.invalidRequest
+  | some cmd =>
+    if !(cmd.pyEqStr "version") && (Json.lookup kvs "version").isNone then .error c.invalidRequest
+    else if (match Json.lookup kvs "version" with | some v => !(v.pyEqInt c.version) | none => false) then
+      .error c.wrongVersion
+    else
+      match cmd with
+      | .str name => if !c.commands.contains name then .error c.commandUnknown else .ok name
+      | _ => .error c.commandUnknown
+
+/-- `self._validation_mappings[command](request)`: the error code, or the parsed key id when
+    the command has one -/
+def validateCmd (m : Mode) (name : String) (kvs : List (String × Json)) : Except Int (List Nat) :=
+  let c := codes m
+  let ofInt (v : Int) : Except Int (List Nat) := if v < 0 then .error v else .ok []
+  match name with
+  | "sign" => validateSign m kvs
+  | "getPubKey" => validateKeyId c kvs
+  | "advanceBlockchain" => ofInt (validateAdvance c kvs)
+  | "updateAncestorBlock" => ofInt (validateUpdate c kvs)
+  | "signerHeartbeat" => ofInt (validateUd c kvs SIGNER_HBT_UD_VALUE_SIZE)
+  | "uiHeartbeat" => ofInt (validateUd c kvs UI_HBT_UD_VALUE_SIZE)
+  | _ => .ok []
+
+/-- `self._mappings[command](request)` -/
+def operate (m : Mode) (hs : Hashes) (name : String) (kvs : List (String × Json))
+    (path : List Nat) : M Out :=
+  let c := codes m
+  match name with
+  | "version" => pure (0, [("version", .int c.version)])
+  | "sign" => (match m with | .v5 => signV5 c kvs path | .v1 => signV1 c kvs path)
+  | "getPubKey" => getPubkey c path
+  | "advanceBlockchain" => advance hs c kvs
+  | "resetAdvanceBlockchain" => resetAdvance c
+  | "blockchainState" => blockchainState c
+  | "updateAncestorBlock" => updateAncestorBlock hs c kvs
+  | "blockchainParameters" => blockchainParameters c
+  | "signerHeartbeat" => signerHb c kvs
+  | "uiHeartbeat" => uiHb c kvs
+  | _ => M.throw' .keyError
+
+/-- `__internal_handle_request` -/
 def handleRequest (m : Mode) (hs : Hashes) (req : Json) : M Json :=
   let c := codes m
   match req with
   | .obj kvs =>
-    match Json.lookup kvs "command" with
-    | none => pure (errReply c.invalidRequest)
-    | some cmd =>
-      if !(cmd.pyEqStr "version") && (Json.lookup kvs "version").isNone then
-        pure (errReply c.invalidRequest)
-      else if (match Json.lookup kvs "version" with | some v => !(v.pyEqInt c.version) | none => false) then
-        pure (errReply c.wrongVersion)
-      else
-        match cmd with
-        | .str name =>
-          if !c.commands.contains name then pure (errReply c.commandUnknown)
-          else
-            match name with
-            | "version" => pure (finish (0, [("version", .int c.version)]))
-            | "sign" =>
-              match validateSign m kvs with
-              | .error e => pure (errReply e)
-              | .ok path => do
-                let o ← (match m with | .v5 => signV5 c kvs path | .v1 => signV1 c kvs path)
-                pure (finish o)
-            | "getPubKey" =>
-              match validateKeyId c kvs with
-              | .error e => pure (errReply e)
-              | .ok path => do pure (finish (← getPubkey c path))
-            | "advanceBlockchain" =>
-              let v := validateAdvance c kvs
-              if v < 0 then pure (errReply v) else do pure (finish (← advance hs c kvs))
-            | "resetAdvanceBlockchain" => do pure (finish (← resetAdvance c))
-            | "blockchainState" => do pure (finish (← blockchainState c))
-            | "updateAncestorBlock" =>
-              let v := validateUpdate c kvs
-              if v < 0 then pure (errReply v) else do pure (finish (← updateAncestorBlock hs c kvs))
-            | "blockchainParameters" => do pure (finish (← blockchainParameters c))
-            | "signerHeartbeat" =>
-              let v := validateUd c kvs SIGNER_HBT_UD_VALUE_SIZE
-              if v < 0 then pure (errReply v) else do pure (finish (← signerHb c kvs))
-            | "uiHeartbeat" =>
-              let v := validateUd c kvs UI_HBT_UD_VALUE_SIZE
-              if v < 0 then pure (errReply v) else do pure (finish (← uiHb c kvs))
-            | _ => M.throw' .keyError
-        | _ => pure (errReply c.commandUnknown)
+    match gate c kvs with
+    | .error e => pure (errReply e)
+    | .ok name =>
+      match validateCmd m name kvs with
+      | .error e => pure (errReply e)
+      | .ok path => do
+        let o ← operate m hs name kvs path
+        pure (finish o)
   | _ => pure (errReply c.formatError)
 
 /-! ### one request line (`_RequestHandler.handle` + `_TCPServerRequestHandler.handle`) -/
